@@ -337,8 +337,20 @@ func genC06() *rapid.Generator[*Spec] {
 			} else {
 				si := stars[x.intn(0, len(stars)-1, "star")]
 				d := m.StructDecl(s.Items[si].Out)
-				ft := Named(addFreshStruct(s, d.Pkg, x.fresh("Gap")))
+				gapName := x.fresh("Gap")
+				ft := Named(addFreshStruct(s, d.Pkg, gapName))
 				d = m.StructDecl(s.Items[si].Out)
+				if x.pct(50, "lockergap") {
+					// the missing dependency happens to have Lock/Unlock methods
+					// (say, it embeds a mutex): it is a dependency all the same
+					if s.PkgExtra == nil {
+						s.PkgExtra = map[int]string{}
+					}
+					s.PkgExtra[d.Pkg] += fmt.Sprintf("func (*%s) Lock() {}\n\nfunc (*%s) Unlock() {}\n", gapName, gapName)
+					if x.pct(50, "gapptr") {
+						ft = Ptr(ft)
+					}
+				}
 				name := x.pick([]string{"ZzGap", "zzgap", "zzgap"}, "gapfield")
 				d.Fields = append(d.Fields, SField{Name: name, T: ft, Tag: x.pick([]string{"", "", `json:"-"`, `xwire:"-"`}, "gaptag")})
 				s.Note = fmt.Sprintf("C06 starfield %s pkg=%d pos=%s", name, d.Pkg, pos)
